@@ -134,7 +134,7 @@ let parse_cmd (line : string) : Spec.cmd option =
   | ["drop"; t] -> Some (Spec.CDrop (num t))
   | ["reopen"] -> Some Spec.CReopen
   | ["create"; t; h; nm; nh] -> Some (Spec.COp (num t, Spec.OCreate (num h, tok nm, num nh)))
-  | ["getb"; t; h; nm; nh] -> Some (Spec.COp (num t, Spec.OGetB (num h, tok nm, num nh)))
+  | ["getb"; t; h; nm; nh] | ["getbi"; t; h; nm; nh] -> Some (Spec.COp (num t, Spec.OGetB (num h, tok nm, num nh)))
   | ["goc"; t; h; nm; nh] -> Some (Spec.COp (num t, Spec.OGoc (num h, tok nm, num nh)))
   | ["delb"; t; h; nm] -> Some (Spec.COp (num t, Spec.ODelB (num h, tok nm)))
   | ["put"; t; h; k; v] -> Some (Spec.COp (num t, Spec.OPut (num h, tok k, tok v)))
